@@ -286,7 +286,14 @@ def finish(rep, explanation, trusted_base, level="other", replay_only=None):
         seen_known.add(v["key"])
         out.append("KNOWN-FINDING: property=%s %s — %s [%s]" % (
             rep.prop, v["key"], open_keys[v["key"]].get("what", v["detail"]), v.get("site", "")))
-    os.makedirs(os.path.join(VERIF, "replay", rep.prop), exist_ok=True)
+    rdir = os.path.join(VERIF, "replay", rep.prop)
+    os.makedirs(rdir, exist_ok=True)
+    if replay_only is None:
+        for fn in os.listdir(rdir):
+            try:
+                os.remove(os.path.join(rdir, fn))
+            except OSError:
+                pass
     seen = set()
     n = 0
     for v in new_viol:
